@@ -12,7 +12,7 @@ def run(ctx):
     import trancommon
     trancommon.exhaustive(ctx, "C07")
     # (a) op-level interleavings of 2-3 colliding transactions driven from one goroutine
-    dbcommon.run_db(ctx, "tranpairs", 24 if ctx.thorough() else 6, "C07p")
+    dbcommon.run_db(ctx, "tranpairs", 60 if ctx.thorough() else 6, "C07p")
     # (b) free-running concurrent clients against the real checker/merger/persist goroutines
-    dbcommon.run_db(ctx, "tran", 8 if ctx.thorough() else 2, "C07c")
+    dbcommon.run_db(ctx, "tran", 24 if ctx.thorough() else 2, "C07c")
     ctx.assumptions += dbcommon.ASSUME
